@@ -29,6 +29,10 @@ C18_OnlyRootControlled == Is("Exec") => OneExec(Cur)
 \* an executable named without a directory is found through $PATH: whatever runs must be root-controlled (a file of the
 \* same name in the working directory is not what runs, its attributes must not decide)
 C18_BareNameChecked == Is("ExecBare") => ~Cur.panic /\ (Cur.executed => Ok(Cur))
+\* relative paths: only the examined file runs
+C18_RelativeRunsChecked == Is("ExecRel") => ~Cur.panic /\ ~Cur.otherExecuted /\ (Cur.executed => Ok(Cur))
+\* a busy file that turned unsafe before it could be started is never run
+C18_BusyNotRun == Is("ExecBusy") => ~Cur.executed
 \* every entry point (daemon, `fan2go sensor`, `fan2go fan`): nothing the configuration names is run unless the
 \* configuration file itself is root-controlled
 C18_CliConfigChecked == Is("CliExec") => (Cur.executed => Ok(Cur))
